@@ -173,6 +173,7 @@ func (c13) Gen(rng *rand.Rand, tier string, k int) *Case {
 	if rng.Intn(40) == 0 {
 		lastDays = 260 + rng.Intn(160) // a look-back of more than a year of daily bars
 	}
+	allHistory := rng.Intn(40) == 0
 	c.Param = []int{lastDays}
 	na := 1 + rng.Intn(5)
 	for i := 0; i < na; i++ {
@@ -205,6 +206,10 @@ func (c13) Gen(rng *rand.Rand, tier string, k int) *Case {
 			s.Scale = []int{3, 4, 6}[rng.Intn(3)]
 		}
 		c.Subs = append(c.Subs, s)
+	}
+	if allHistory {
+		// "everything there is": a look-back of centuries (the data still lies around the simulated now)
+		c.Param[0] = []int{110000, 150000, 200000, 36500}[rng.Intn(4)]
 	}
 	c.Workers = []int{1, 1, 2, 3, 4, 8, 16}[rng.Intn(7)]
 	if rng.Intn(2) == 0 {
@@ -352,7 +357,7 @@ func (c13) Run(c *Case, st *Stats) []Violation {
 	if c.Workers > 1 {
 		regime = "workers>1"
 	}
-	dir, repoDir := "", ""
+	dir, repoDir, linkDir := "", "", ""
 	blocked := false
 	clientDone := false
 	var runErr error
@@ -380,7 +385,11 @@ func (c13) Run(c *Case, st *Stats) []Violation {
 				if a.SrcAbsent {
 					continue
 				}
-				all := genSnapshots(a.SrcN, int(a.Seed%int64(NumShapes)), a.Seed, today.AddDate(0, 0, a.SrcFrom-a.SrcN+1+lastDays/2))
+				off := lastDays / 2
+				if lastDays > 1000 {
+					off = 0 // a look-back of centuries: the data lies around now, all of it inside the window
+				}
+				all := genSnapshots(a.SrcN, int(a.Seed%int64(NumShapes)), a.Seed, today.AddDate(0, 0, a.SrcFrom-a.SrcN+1+off))
 				if k := a.SrcSwap; k > 0 && k < len(all) {
 					all[k-1], all[k] = all[k], all[k-1] // stored out of date order (a late correction)
 					st.Faults["asset-stored-out-of-date-order"]++
@@ -388,6 +397,16 @@ func (c13) Run(c *Case, st *Stats) []Violation {
 				if err := fill(repo, a.Name, all); err != nil {
 					add("setup-error", "-", err.Error())
 					return
+				}
+				if repoDir != "" && a.Seed%5 == 0 {
+					// the asset's file is kept elsewhere and linked into the repository directory
+					if linkDir == "" {
+						linkDir = runDir()
+					}
+					p, real := filepath.Join(repoDir, a.Name+".csv"), filepath.Join(linkDir, a.Name+".data")
+					if os.Rename(p, real) == nil && os.Symlink(real, p) == nil {
+						st.Faults["asset-file-is-a-symbolic-link"]++
+					}
 				}
 				present[a.Name] = true
 				allByName[a.Name] = all
@@ -507,6 +526,9 @@ func (c13) Run(c *Case, st *Stats) []Violation {
 		}
 		if repoDir != "" {
 			os.RemoveAll(repoDir)
+		}
+		if linkDir != "" {
+			os.RemoveAll(linkDir)
 		}
 	}()
 	st.noteSim(out)
